@@ -1,6 +1,7 @@
 """Operation histories: generation, printing for the model, execution on the real code."""
 from __future__ import annotations
 
+import os
 import random as _pyrandom
 from fractions import Fraction
 
@@ -95,7 +96,8 @@ def gen_history(rng: _pyrandom.Random, max_ops: int = 12, max_rows: int = 40, ma
                 op["dtype"] = "uint8"
             ops.append(op)
         elif name == "refine":
-            ops.append({"op": "refine", "n": rng.choice([0, 1, 1, 2, 3, 4]) if rng.random() > 0.05 else -1})
+            ops.append({"op": "refine", "n": rng.choice([0, 1, 1, 2, 3, 4]) if rng.random() > 0.05 else -1,
+                        "xform": rng.choice(["array", "array", "path", "paths", "paths"]), "packed": rng.random() < 0.5})
         elif name == "recluster":
             ops.append({"op": "recluster", "it": rng.choice([1, 1, 2, 3]),
                         "extra": rng.choice([0.0, 0.0, 0.05, -0.05, 0.1, -0.2]),
@@ -191,7 +193,8 @@ class Session:
             lab = "-" if op.get("labels") is None else show_nats(",", op["labels"])
             return f"FIT F={op['F']} labels={lab} rows={rows_arg(op['F'], op['rows'])}"
         if k == "refine":
-            return f"REFINE n={op['n']} im=0 F={self.F} rows={rows_arg(self.F, self.data)}"
+            srt = 1 if op.get("xform") == "paths" else 0
+            return f"REFINE n={op['n']} im=0 F={self.F} srt={srt} rows={rows_arg(self.F, self.data)}"
         if k == "recluster":
             ps = "-"
             if perms:
@@ -239,7 +242,30 @@ class Session:
                 t.fit(X, **kw)
             elif k == "refine":
                 X = np.asarray(self.data, dtype=np.uint8).reshape(len(self.data), self.F)
-                t.refine_inplace(X, initial_mol=0, input_is_packed=False, n_largest=op["n"])
+                packed = bool(op.get("packed")) and self.F % 8 == 0   # refine unpacks with the tree's feature count
+                if packed:
+                    X = np.packbits(X, axis=1)
+                xform = op.get("xform", "array")
+                if xform == "array" or len(X) == 0:
+                    t.refine_inplace(X, initial_mol=0, input_is_packed=packed, n_largest=op["n"])
+                else:
+                    import tempfile, shutil
+                    from pathlib import Path
+                    tmp = Path(tempfile.mkdtemp(prefix="bbverif-ref-", dir=os.environ.get("VERIF_SCRATCH", "/var/tmp")))
+                    try:
+                        if xform == "path":
+                            np.save(tmp / "all.npy", X)
+                            arg = tmp / "all.npy"
+                        else:
+                            cut = max(1, len(X) // 3)
+                            parts = [X[:cut], X[cut:cut], X[cut:]]   # includes an empty file
+                            arg = []
+                            for i, part in enumerate(parts):
+                                np.save(tmp / f"p{i}.npy", part)
+                                arg.append(tmp / f"p{i}.npy")
+                        t.refine_inplace(arg, initial_mol=0, input_is_packed=packed, n_largest=op["n"])
+                    finally:
+                        shutil.rmtree(tmp, ignore_errors=True)
             elif k == "recluster":
                 perms = []
                 real = bbmod.random
